@@ -36,18 +36,20 @@ struct V {
 static void take(V&& v) { if (v.id < 0) { ++R.moved_from_seen; return; } R.consumed[v.id]++; V local(std::move(v)); }
 static void look(const V& v) { if (v.id < 0) { ++R.moved_from_seen; return; } R.consumed[v.id]++; }
 
-constexpr nterm<V> list("list"); constexpr nterm<V> item("item"); constexpr nterm<V> tail("tail");
+constexpr nterm<V> list("list"); constexpr nterm<V> item("item"); constexpr nterm<V> tail("tail"); constexpr nterm<V> atom("atom"); constexpr nterm<V> doc("doc");
 constexpr char num_pattern[] = "n+";
 static V from_lexeme(std::string_view) { return V::make(); }
 constexpr char_term o_plus('+', 1, associativity::ltor);
 
 static auto make_p() {
     static const typed_term num(regex_term<num_pattern>("num"), from_lexeme);
-    return parser(list, terms(num, o_plus, ';', '(', ')', '!'), nterms(list, item, tail), rules(
+    return parser(doc, terms(num, o_plus, ';', '(', ')', '!'), nterms(doc, list, item, tail, atom), rules(
+        doc(list),                                       // no functor: the value must be moved through, not copied
+        item(atom),                                      // no functor
+        atom(num) >= [](term_value<V>&& t) { look(t.get_value()); return V::make(); },
         list() >= []() { return V::make(); },
         list(list, item, tail, ';') >= [](V&& l, V&& i, V&& t, skip) { take(std::move(l)); take(std::move(i)); take(std::move(t)); return V::make(); },
         list(list, error, ';') >= [](V&& l, skip, skip) { take(std::move(l)); return V::make(); },
-        item(num) >= [](term_value<V>&& t) { look(t.get_value()); return V::make(); },
         item(item, '+', item) >= [](V&& a, skip, V&& b) { take(std::move(a)); take(std::move(b)); return V::make(); },
         item('(', item, ')') >= [](skip, V&& a, skip) { take(std::move(a)); return V::make(); },
         tail() >= []() { return V::make(); },
